@@ -492,6 +492,15 @@ Definition safe_progs (progs : list (list bop)) : bool := forallb (forallb safe_
 Definition k_buf (progs : list (list bop)) : bool := negb (safe_progs progs).
 
 
+(** create_edge and delete_edge of an edge id that the starting graph does not contain (the edge
+    being created by another thread: its id is visible through the edge map before the adjacency
+    lists are updated) *)
+Definition k_edge_torn (lo : Z) (progs : list (list gop)) : bool :=
+  let n := length progs in
+  existsb (fun i => existsb (fun j => negb (Nat.eqb i j) &&
+     existsb (fun op => match op with GCreateEdge _ _ => true | _ => false end) (nth i progs []) &&
+     existsb (fun op => match op with GDeleteEdge e => lo <=? e | _ => false end) (nth j progs [])) (seq 0 n)) (seq 0 n).
+
 (** * Yield sites.  [xsite k jumped] is the name of the [verif::yield_point] site (commit 45dda10 of
       /repo) at which the thread stands after step [k] when the step did not return
       ([jumped] = the target when the step left by a [Goto]).  The scheduler harness reports the site at
